@@ -19,7 +19,7 @@ trap 'rm -rf "$SCR"' EXIT
 # evidence in and the worse exit code wins)
 case "$ID" in
   C04|C11|C12|C14|TOY) BINS="schedcheck" ;;
-  C16|C17|C20) BINS="seqcheck schedcheck" ;;
+  C15|C16|C17|C20) BINS="seqcheck schedcheck" ;;
   *) BINS="seqcheck" ;;
 esac
 if [ -n "${VERIF_BIN:-}" ]; then BINS=$VERIF_BIN; fi
